@@ -38,6 +38,7 @@ type Engine struct {
 	verbose   bool
 	findings  []Finding
 	missingContracts []string
+	closedFields     map[string]bool
 }
 
 const pkgPath = "github.com/jwhited/corebgp"
